@@ -459,6 +459,13 @@ def finding_matches(f, rec):
         elif isinstance(want, dict) and "in" in want:
             if got not in want["in"]:
                 return False
+        elif isinstance(want, dict) and ("subset_of" in want or "intersects" in want):
+            if not isinstance(got, list):
+                return False
+            if "subset_of" in want and not set(map(str, got)) <= set(want["subset_of"]):
+                return False
+            if "intersects" in want and not set(map(str, got)) & set(want["intersects"]):
+                return False
         elif got != want:
             return False
     return True
